@@ -14,7 +14,7 @@ INFO = {
              'histories of up to 8 requests. After every request a fixed probe request must be answered exactly as '
              'before. Non-trivial = the failing position is not the endpoint, or the handler is not the default, or the '
              'message is non-ASCII/huge/unprintable; distinct (stack, position, behaviour, handler) counted.'),
-    'exhaustive_scope': 'behaviour x position x handler on the two fixed stacks',
+    'exhaustive_scope': 'behaviour x position x handler on the fixed stacks (2 in the quick tier, 10 in the thorough tier)',
     'assumptions': ['BaseExceptions, failures while iterating a streamed body and render_error returning a non-response are outside the listed behaviours',
                     'under the re-raising handler a non-Response result escapes as the framework\'s own TypeError'],
 }
@@ -217,6 +217,24 @@ def well_formed(ctx, r, what, rc, method='GET'):
         ctx.mismatch('body-not-bytes', '%s: body chunks are not all bytes' % what, rc)
 
 
+_twins = {}
+
+
+def default_twin(shape):
+    """the same stack under the default handler: what a failing render_error must fall back to"""
+    import json
+    key = json.dumps(shape, sort_keys=True)
+    if key not in _twins:
+        cell = {}
+        _twins[key] = (build_app(shape, 'default', cell), cell)
+    return _twins[key]
+
+
+def norm_frames(b):
+    import re
+    return re.sub(rb'\(\d+ frames', b'(N frames', re.sub(rb'0x[0-9a-f]{6,}', b'0xADDR', b))
+
+
 def run_one(ctx, app, shape, cell, pos, beh, handler, probe0, rc, accept='*/*', method='GET'):
     bid, kind, factory, exp = beh
     holder = {}
@@ -249,6 +267,17 @@ def run_one(ctx, app, shape, cell, pos, beh, handler, probe0, rc, accept='*/*', 
     else:
         if r.exc is None or not isinstance(r.exc, TypeError):
             ctx.mismatch('reraise-nonresponse', '%s: expected TypeError to escape, got %r / %s' % (what, r.exc, r.status), rc)
+            return
+    if handler == 'broken' and want[0] == 'status' and want[1] >= 400 and r.exc is None:
+        # "an error renderer that itself fails falls back to the default rendering of the same error"
+        twin, tcell = default_twin(shape)
+        tcell['pos'], tcell['act'] = pos, act
+        t = call(twin, '/x', method, headers={'Accept': accept} if accept is not None else None)
+        tcell['pos'] = None
+        ctx.requests += 1
+        if (t.status, norm_frames(t.body), (t.header('Content-Type') or '')) != (r.status, norm_frames(r.body), (r.header('Content-Type') or '')):
+            ctx.mismatch('fallback-rendering-differs', '%s: with a failing render_error the client got %s %r (%s), the default rendering is %s %r (%s)'
+                         % (what, r.status, r.body[:80], r.header('Content-Type'), t.status, t.body[:80], t.header('Content-Type')), rc)
             return
     # the application still serves the next request exactly as before
     check_probes(ctx, app, probe0, what, rc)
@@ -350,12 +379,27 @@ def history_body(case, ctx):
             ctx.nt([shape, handler, pos, beh[0]], sample=len(ctx.samples) < 2)
 
 
+FIXED += [
+    {'mws': [['request', 'endpoint', 'render']] * 3, 'levels': ['app', 'app', 'route'], 'render': True},
+    {'mws': [['endpoint'], ['render'], ['request']], 'levels': ['route', 'app', 'app'], 'render': True},
+    {'mws': [['request', 'endpoint'], ['request', 'endpoint']], 'levels': ['route', 'route'], 'render': False},
+    {'mws': [], 'levels': [], 'render': True},
+    {'mws': [], 'levels': [], 'render': False},
+    {'mws': [['render'], ['render']], 'levels': ['app', 'route'], 'render': True},
+    {'mws': [['request'], ['request'], ['request']], 'levels': ['app', 'app', 'app'], 'render': False},
+    {'mws': [['endpoint', 'render']], 'levels': ['app'], 'render': True},
+]
+
+
 def shards(tier, seed):
     out = []
     for h in HANDLERS:
         out.append({'part': 'product', 'shape': 0, 'handlers': [h]})
     out.append({'part': 'product', 'shape': 1, 'handlers': HANDLERS})
-    n = 40 if tier == 'quick' else 2500
+    if tier != 'quick':
+        for sh in range(2, len(FIXED)):
+            out.append({'part': 'product', 'shape': sh, 'handlers': HANDLERS})
+    n = 40 if tier == 'quick' else 12000
     out += [{'part': 'random', 'n': n} for _ in range(10)]
     return out
 
